@@ -1,4 +1,8 @@
 use super::backend::{CmdTask, ConnFactory, IntoTask, SenderBackendError};
+#[cfg(undermoon_verif)]
+use crate::common::verif::sync::Mutex as MetaLock;
+#[cfg(not(undermoon_verif))]
+use parking_lot::Mutex as MetaLock;
 use super::blocking::{
     gen_basic_blocking_sender_factory, gen_blocking_sender_factory, BasicBlockingSenderFactory,
     BlockingBackendSenderFactory, BlockingCmdTaskSender, BlockingMap, CounterTask,
@@ -91,7 +95,7 @@ pub struct MetaManager<F: RedisClientFactory, C: ConnFactory<Pkt = RespPacket>> 
     // inside meta_map.
     meta_map: SharedMetaMap<C>,
     epoch: AtomicU64,
-    lock: parking_lot::Mutex<()>, // This is the write lock for `epoch`, `cluster`, and `task`.
+    lock: MetaLock<()>, // This is the write lock for `epoch`, `cluster`, and `task`.
     replicator_manager: ReplicatorManager<F>,
     migration_manager: MigrationManager<
         F,
@@ -166,7 +170,7 @@ impl<F: RedisClientFactory, C: ConnFactory<Pkt = RespPacket>> MetaManager<F, C> 
             config,
             meta_map,
             epoch: AtomicU64::new(0),
-            lock: parking_lot::Mutex::new(()),
+            lock: MetaLock::new(()),
             replicator_manager: ReplicatorManager::new(
                 client_factory.clone(),
                 future_registry.clone(),
